@@ -497,6 +497,18 @@ func (e *SpecEnv) callExpr(n *ECall, cur, old *State) Val {
 			// allocated since the root function under verification was entered
 			v := e.eval(n.Args[0], cur, old)
 			return scalar(boolT, Ge(v.L[0], vc.A0))
+		case "as":
+			// as(x, *T): the payload of interface value x viewed as a *T (meaningful under typeis(x, *T))
+			v := e.eval(n.Args[0], cur, old)
+			u, ok := n.Args[1].(*EUn)
+			if !ok || u.Op != "*" || len(v.L) != 2 {
+				return e.fail("as(interface value, *Type)")
+			}
+			t := e.resolveType(exprText(u.X))
+			if t == nil {
+				return e.fail("as: unknown type %s", exprText(u.X))
+			}
+			return scalar(types.NewPointer(t), v.L[1])
 		case "typeis":
 			v := e.eval(n.Args[0], cur, old)
 			tn := exprText(n.Args[1])
@@ -673,6 +685,21 @@ func (e *SpecEnv) callExpr(n *ECall, cur, old *State) Val {
 				ref = v.L[1]
 			}
 			return scalar(intT, Select(vc.get(cur, "Pos"), ref))
+		case "seekfailed", "jsonok", "jsonmember":
+			v := e.eval(n.Args[0], cur, old)
+			ref := v.L[0]
+			if len(v.L) == 2 {
+				ref = v.L[1]
+			}
+			switch id.Name {
+			case "seekfailed":
+				vc.registerComp("SeekFail", SArr(SInt, SInt))
+				return scalar(boolT, Ne(Select(vc.get(cur, "SeekFail"), ref), Zero))
+			case "jsonok":
+				return scalar(boolT, mk(SBool, vc.declareFun("json.ok", []*Sort{SInt}, SBool), ref))
+			}
+			tag := e.eval(n.Args[1], cur, old)
+			return scalar(types.Typ[types.String], mk(SStr, vc.declareFun("json.member", []*Sort{SInt, SStr}, SStr), ref, tag.one()))
 		case "hasPrefix":
 			a := e.eval(n.Args[0], cur, old)
 			b := e.eval(n.Args[1], cur, old)
